@@ -434,6 +434,13 @@ func (c *clients) pooledUDP() *udpSock {
 	return s
 }
 
+// fixedUDP returns the i-th pooled socket (bursts that must share a socket).
+func (c *clients) fixedUDP(i int) *udpSock {
+	c.mu.Lock()
+	defer c.mu.Unlock()
+	return c.udp[i%len(c.udp)]
+}
+
 func (c *clients) oneShotUDP() (*udpSock, error) {
 	s, err := newUDPSock(c.nextSrc(), c.server)
 	if err != nil {
